@@ -1636,6 +1636,221 @@ def extras_stream(ctx, ncases):
         ctx.case()
 
 
+# ---- Integrate as a binder over mixed real + discrete reduced sets (Gaussian / mixture / Delta measures) --------
+
+def _gauss_case(rng):
+    """parameters of one case; everything the oracle needs is in the dict (json-able)"""
+    K = rng.choice([2, 3])
+    a = rng.choice(POOL)
+    b = rng.choice([None, None] + [x for x in POOL if x != a])
+    Kb = rng.choice([2, 3])
+    measure = rng.choice(["gauss", "mix-tg", "mix-tg", "mix-gt", "mix-gt", "delta-t"])
+    integrand = rng.choice(["num", "tens", "lin", "lin", "quad", "gauss"])
+    if measure == "gauss":
+        b = None
+    cands = ["x"] + ([a] if True else []) + ([b] if b else [])
+    R = [v for v in cands if rng.random() < 0.6] or [rng.choice(cands)]
+    if measure == "delta-t" and "x" not in R:
+        R.append("x")
+    if b and measure.startswith("mix") and rng.random() < 0.15:
+        # both discrete names of the weight table reduced with an integrand without discrete inputs: the mixture's
+        # own logaddexp binder must be kept by eager_integrate_gaussianmixture (fixed in /repo f38a442)
+        integrand = rng.choice(["quad", "gauss", "num"])
+        R = sorted(set(R) | {a, b})
+    c = dict(K=K, Kb=Kb, a=a, b=b, measure=measure, integrand=integrand, R=sorted(R),
+             d=[[round(rng.uniform(-1, 1), 2) for _ in range(Kb if b else 1)] for _ in range(K)],
+             m=[round(rng.uniform(-2, 2), 2) for _ in range(K)],
+             p=[round(rng.uniform(0.5, 3), 2) for _ in range(K)],
+             w=[round(rng.uniform(-2, 2), 2) for _ in range(K)],
+             c0=round(rng.uniform(-2, 2), 2), q=round(rng.uniform(0.5, 2), 2), a0=round(rng.uniform(-1, 1), 2),
+             x0=round(rng.uniform(-1, 1), 2), v=[round(rng.uniform(-3, 3), 2) for _ in range(3)],
+             wrapper=rng.choice(["none", "none", "reduce-same", "contr-same", "fac-same", "subs-collide"]),
+             idx=[rng.randrange(8) for _ in range(3)])
+    return c
+
+
+def _gauss_oracle(c):
+    """-> (names of the free discrete inputs in order, ndarray over them) of Integrate(...) itself (no wrapper):
+    closed-form Gaussian moments times the weight table, summed over the reduced discrete names"""
+    import math
+    K, a, b = c["K"], c["a"], c["b"]
+    m, p, w = np.array(c["m"]), np.array(c["p"]), np.array(c["w"])
+    kind = c["integrand"]
+    c0 = np.zeros(K); c1 = np.zeros(K); c2 = np.zeros(K)
+    if kind == "num":
+        c0 += c["c0"]
+    elif kind == "tens":
+        c0 += w
+    elif kind == "lin":
+        c1 += w
+    elif kind == "quad":
+        c2 += 1.0
+    else:  # gaussian integrand  -q/2 (x - a0)^2
+        q, a0 = c["q"], c["a0"]
+        c2 += -0.5 * q; c1 += q * a0; c0 += -0.5 * q * a0 * a0
+    if c["measure"] == "delta-t":
+        M = c0 + c1 * m + c2 * m * m                      # point mass at x = m_i
+    elif "x" in c["R"]:
+        Z = np.sqrt(2 * math.pi / p)
+        M = Z * (c0 + c1 * m + c2 * (m * m + 1.0 / p))
+    else:
+        x0 = c["x0"]
+        M = np.exp(-0.5 * p * (x0 - m) ** 2) * (c0 + c1 * x0 + c2 * x0 * x0)
+    if c["measure"] == "gauss":
+        T = M.reshape(K, 1)
+    else:
+        T = np.exp(np.array(c["d"])) * M.reshape(K, 1)      # (K, Kb or 1)
+    names = [a] + ([b] if b else [])
+    if not b:
+        T = T[:, 0]
+    for ax in reversed(range(len(names))):
+        if names[ax] in c["R"]:
+            T = T.sum(axis=ax)
+    return [nm_ for nm_ in names if nm_ not in c["R"]], np.asarray(T)
+
+
+def _gauss_build(c, ren=None):
+    """the funsor term (under the ACTIVE interpretation); `ren` renames the reduced discrete names (twin)"""
+    from funsor.gaussian import Gaussian
+    from funsor.delta import Delta
+    ren = ren or {}
+    K, Kb = c["K"], c["Kb"]
+    a = ren.get(c["a"], c["a"])
+    b = ren.get(c["b"], c["b"]) if c["b"] else None
+    ia = OrderedDict([(a, Bint[K])])
+    m, p, w = np.array(c["m"]), np.array(c["p"]), np.array(c["w"])
+    x = Variable("x", Real)
+    if c["measure"] == "delta-t":
+        core = Delta("x", Tensor(m, ia))
+    else:
+        core = Gaussian(mean=m.reshape(K, 1), precision=p.reshape(K, 1, 1),
+                        inputs=OrderedDict([(a, Bint[K]), ("x", Real)]))
+    if c["measure"] == "gauss":
+        lm = core
+    else:
+        dins = OrderedDict([(a, Bint[K])] + ([(b, Bint[Kb])] if b else []))
+        d = np.array(c["d"]) if b else np.array(c["d"])[:, 0]
+        disc = Tensor(d, dins)
+        lm = (core + disc) if c["measure"] == "mix-gt" else (disc + core)
+    kind = c["integrand"]
+    if kind == "num":
+        f = Number(c["c0"])
+    elif kind == "tens":
+        f = Tensor(w, ia)
+    elif kind == "lin":
+        f = x * Tensor(w, ia)
+    elif kind == "quad":
+        f = x * x
+    else:
+        f = Gaussian(mean=np.array([c["a0"]]), precision=np.array([[c["q"]]]), inputs=OrderedDict(x=Real))
+    R = frozenset(ren.get(v, v) for v in c["R"])
+    return Integrate(lm, f, R)
+
+
+def _gauss_wrap(c, I, names, E, ren=None):
+    """an enclosing construct that re-uses the name of a reduced (bound) discrete variable -> (term, names, expected)"""
+    ren = ren or {}
+    Rd = [v for v in c["R"] if v != "x"]
+    wr = c["wrapper"]
+    if wr == "none" or not Rd:
+        return I, names, E
+    cname = Rd[0]
+    size = c["K"] if cname == c["a"] else c["Kb"]
+    if wr in ("reduce-same", "contr-same", "fac-same"):
+        # the outer binder keeps the USER's name even in the twin of the inner one: it is a different binder
+        v = Tensor(np.array(c["v"][:size]), OrderedDict([(cname, Bint[size])]))
+        if wr == "reduce-same":
+            t = (v * I).reduce(ops.add, cname)
+        elif wr == "contr-same":
+            t = Contraction(ops.add, ops.mul, frozenset({Variable(cname, Bint[size])}), v, I)
+        else:
+            t = FACT_CLS["FSumFirst"](Variable(cname, Bint[size]), v * I)
+        return t, names, float(np.sum(c["v"][:size])) * E
+    # subs-collide: substitute for a remaining free discrete input a value whose free name is the bound name
+    if not names:
+        return I, names, E
+    fname = names[0]
+    fsize = E.shape[0]
+    idx = np.array([c["idx"][k] % fsize for k in range(size)])
+    t = I(**{fname: Tensor(idx, OrderedDict([(cname, Bint[size])]), fsize)})
+    return t, [cname] + names[1:], np.take(E, idx, axis=0)
+
+
+def gauss_integrate_stream(ctx, ncases):
+    from funsor.gaussian import Gaussian  # noqa: F401
+    rng = ctx.rng
+    for _ in range(ncases):
+        c = _gauss_case(rng)
+        names0, E0 = _gauss_oracle(c)
+        Rd = [v for v in c["R"] if v != "x"]
+        ren = {v: f"u{k + 1}" for k, v in enumerate(Rd)}
+        ctx.count(f"gauss:{c['measure']}:{c['integrand']}")
+        ctx.count("gauss:reduced:" + ("mixed" if Rd and "x" in c["R"] else "real-only" if not Rd else "discrete-only"))
+        ctx.count(f"gauss:wrapper:{c['wrapper']}")
+        results = {}
+        bad = None
+        for mode in ("eager", "lazy", "reflect"):
+            for twin in (False, True):
+                try:
+                    if mode == "eager":
+                        I = _gauss_build(c, ren if twin else None)
+                        t, names, E = _gauss_wrap(c, I, names0, E0)
+                        res = t
+                    else:
+                        with {"lazy": lazy, "reflect": reflect}[mode]:
+                            I = _gauss_build(c, ren if twin else None)
+                            t, names, E = _gauss_wrap(c, I, names0, E0)
+                        if not twin:
+                            nm_ = check_names(t, names, {"x"} if "x" not in c["R"] else set(), exact_inputs=True)
+                            if nm_:
+                                bad = (mode, f"{nm_[0]}: {nm_[1]}", "names")
+                                break
+                        res = reinterpret(t)
+                    if "x" in res.inputs:
+                        res = res(x=Tensor(np.array(c["x0"])))
+                except DECLINE + (RecursionError,) as e:
+                    ctx.count(f"gauss:{mode}:declined:{type(e).__name__}")
+                    continue
+                foreign = set(res.inputs) - set(names)
+                if foreign:
+                    bad = (mode, f"result has inputs {sorted(res.inputs)}, free names are {sorted(names)} "
+                                 f"(reduced: {c['R']}{' / twin ' + str(ren) if twin else ''})", "inputs")
+                    break
+                if not isinstance(res, (Tensor, Number)):
+                    ctx.count(f"gauss:{mode}:lazy-result")
+                    continue
+                order = [(nm_, E.shape[k]) for k, nm_ in enumerate(names)]
+                tab = futil.table(res, order) if order else np.asarray(res.data, dtype=float)
+                tab = np.asarray(tab, dtype=float).reshape(np.shape(E))
+                if not np.allclose(tab, E, rtol=1e-6, atol=1e-8):
+                    bad = (mode, f"{'twin ' if twin else ''}value {tab.tolist()} != closed form {np.asarray(E).tolist()}", "value")
+                    break
+                results[(mode, twin)] = tab
+                ctx.count(f"gauss:{mode}:value")
+            if bad:
+                break
+        if bad:
+            ctx.fail("input", f"C05.integrate-gaussian-{bad[2]}", witness={"case": c, "mode": bad[0]},
+                     expected=f"free names {names0} (before the wrapper), closed form {np.asarray(E0).tolist()}",
+                     got=bad[1], python=GAUSS_PY.format(case=c))
+        ctx.case(sample=None, nontrivial_key=repr(sorted(c.items(), key=str)) if results and Rd else None)
+
+
+GAUSS_PY = """import sys
+sys.path.insert(0, '/verif')
+from fv.harness import c05
+from funsor.interpretations import lazy
+from funsor.interpreter import reinterpret
+case = {case}
+names, E = c05._gauss_oracle(case)
+I = c05._gauss_build(case)
+t, names2, E2 = c05._gauss_wrap(case, I, names, E)
+print('term inputs', dict(t.inputs), 'free names', names2)
+print('value', t, 'closed form', E2)
+FAILS = bool(set(t.inputs) - set(names2) - {{'x'}})
+"""
+
+
 # ---- dedicated stream: KF-shared-binder-unfold -----------------------------------------------------
 
 KF = "KF-shared-binder-unfold"
@@ -1766,6 +1981,7 @@ def correspond(ctx):
     fusion_stream(ctx)
     clean_stream(ctx, 1000 if quick else 6000)
     extras_stream(ctx, 80 if quick else 600)
+    gauss_integrate_stream(ctx, 250 if quick else 2500)
     for name, fid, stream in (("shared-binder", KF, shared_binder_stream), ("approximate", KF2, approximate_stream)):
         try:
             stream(ctx)
